@@ -2,7 +2,7 @@
    arrival history (virtual ns, batch) and what was observed through the public API
    (pass + requested sleep / block); `mismatches` lists the cases the model disagrees on. *)
 From Coq Require Import Floats.
-From SG Require Export Base.Prelude Base.GoInt Base.GoFloat Model.Throttle.
+From SG Require Export Base.Prelude Base.GoInt Base.GoFloat Model.Throttle Model.ThrottleConc.
 #[local] Open Scope Z_scope.
 
 Definition obs_eqb (a b : obs) : bool :=
@@ -21,9 +21,23 @@ Fixpoint list_eqb {A} (eq : A -> A -> bool) (a b : list A) : bool :=
 
 Inductive case :=
 | Seq (id : Z) (T : float) (timeout_ms stat_ms : Z) (ops : list (Z * Z)) (observed : list obs)
-      (intervals : list (Z * Z)).
+      (intervals : list (Z * Z))
    (* sequential history through flow.LoadRules + sentinel.Entry under the virtual clock;
       intervals = (batch, interval in ns) pairs as the monitor computed them in Go float64 *)
+| Conc (id : Z) (T : float) (timeout_ms stat_ms : Z) (batches : list Z) (sched : list ev)
+       (observed_labels : list Z) (observed : list obs).
+   (* k goroutines stepped through the yield points 201..205 of DoCheck: the schedule as
+      executed, the label each step parked at, and every caller's outcome *)
+
+Definition oobs_eqb (a : option out) (b : obs) : bool :=
+  match a with Some o => obs_eqb (obs_of o) b | None => false end.
+
+Fixpoint list_eqb2 {A B} (eq : A -> B -> bool) (a : list A) (b : list B) : bool :=
+  match a, b with
+  | [], [] => true
+  | x :: xs, y :: ys => eq x y && list_eqb2 eq xs ys
+  | _, _ => false
+  end.
 
 Definition case_ok (c : case) : bool :=
   match c with
@@ -31,9 +45,13 @@ Definition case_ok (c : case) : bool :=
       let cf := mk_cfg T tmo st in
       list_eqb obs_eqb (map obs_of (snd (run_c cf last0 ops))) observed
       && forallb (fun p => interval cf (fst p) =? snd p) ivs
+  | Conc _ T tmo st bs sched labs observed =>
+      let cf := mk_cfg T tmo st in
+      list_eqb Z.eqb (labels_c cf sched (cinit bs)) labs
+      && list_eqb2 oobs_eqb (outcomes (cexec_c cf sched (cinit bs))) observed
   end.
 
-Definition case_id (c : case) : Z := match c with Seq id _ _ _ _ _ _ => id end.
+Definition case_id (c : case) : Z := match c with Seq id _ _ _ _ _ _ => id | Conc id _ _ _ _ _ _ _ => id end.
 
 Definition mismatches (cs : list case) : list Z :=
   map case_id (filter (fun c => negb (case_ok c)) cs).
